@@ -23,7 +23,7 @@ struct Rec {
 
 pub fn run_log_damage<K: SimKey>(case: &Case, budget: u32, dseed: u64) -> Outcome {
     let mut out = Outcome::default();
-    let mut t = traced_run::<K>(case, &mut out, false);
+    let mut t = traced_run::<K>(case, &mut out, true);
     if let Some(f) = t.failure.take() {
         out.violation = Some(f);
     }
@@ -33,9 +33,40 @@ pub fn run_log_damage<K: SimKey>(case: &Case, budget: u32, dseed: u64) -> Outcom
     if out.violation.is_some() || out.harness_error.is_some() {
         return out;
     }
-    let disk = sim.disk.clone();
+    // base images: the clean final one, plus crash images - in particular those whose
+    // un-checkpointed tail spans more than one segment (a kill between a roll-over append and its
+    // checkpoint), which no clean shutdown ever produces
+    let tail_segments = |d: &Disk| -> usize {
+        let Ok(p) = parse_log(d) else { return 0 };
+        let sv = p.snapshot.as_ref().map_or(0, |s| s.version);
+        p.segments.values().filter(|s| s.records.iter().any(|r| r.version > sv)).count()
+    };
+    let mut rng0 = Rng::new(dseed ^ 0x5eed);
+    let mut bases: Vec<(String, Disk)> = vec![("final image".into(), sim.disk.clone())];
+    let multi: Vec<usize> = (0..t.snaps.len()).filter(|&i| tail_segments(&t.snaps[i].disk) >= 2).collect();
+    if !multi.is_empty() {
+        let i = *rng0.pick(&multi);
+        bases.push((format!("crash image cut={} (tail spans {} segments)", t.snaps[i].step, tail_segments(&t.snaps[i].disk)), t.snaps[i].disk.clone()));
+        *out.site_counts.entry("probe:multi-segment-tail".into()).or_insert(0) += 1;
+    }
+    if !t.snaps.is_empty() && rng0.chance(1, 2) {
+        let i = rng0.below(t.snaps.len() as u64) as usize;
+        bases.push((format!("crash image cut={}", t.snaps[i].step), t.snaps[i].disk.clone()));
+    }
+    let per = (budget / bases.len() as u32).max(50);
+    for (bi, (what, disk)) in bases.into_iter().enumerate() {
+        damage_image::<K>(case, &disk, &what, per, dseed.wrapping_add(bi as u64), &mut out);
+        if out.violation.is_some() || out.harness_error.is_some() {
+            break;
+        }
+    }
+    out
+}
+
+fn damage_image<K: SimKey>(case: &Case, disk: &Disk, what: &str, budget: u32, dseed: u64, out: &mut Outcome) {
+    let disk = disk.clone();
     let wl = &case.workload;
-    let Ok(parsed) = parse_log(&disk) else { return out };
+    let Ok(parsed) = parse_log(&disk) else { return };
     let sv = parsed.snapshot.as_ref().map_or(0, |s| s.version);
     // states after each prefix of the un-checkpointed records
     let mut state: Logged = Logged::new();
@@ -58,7 +89,7 @@ pub fn run_log_damage<K: SimKey>(case: &Case, budget: u32, dseed: u64) -> Outcom
         }
     }
     if recs.is_empty() {
-        return out;
+        return;
     }
     let total_len: usize = recs.iter().map(|r| r.end - r.start).sum();
     let mut rng = Rng::new(dseed);
@@ -158,6 +189,7 @@ pub fn run_log_damage<K: SimKey>(case: &Case, budget: u32, dseed: u64) -> Outcom
                 (*rec, format!("byte {} of record #{rec} (segment {}, {} region) changed {old:#04x}->{val:#04x}", off - r.start, r.seg_id, if off - r.start < 44 { "checksum" } else { "payload" }))
             }
         };
+        let desc = format!("{what}: {desc}");
         out.counters.damaged_opens += 1;
         let base = fresh_dir();
         img.materialise(&base, &BTreeSet::new()).expect("materialise");
@@ -199,5 +231,4 @@ pub fn run_log_damage<K: SimKey>(case: &Case, budget: u32, dseed: u64) -> Outcom
         }
         out.fingerprints.push(crate::rng::mix_str(ri as u64, &desc));
     }
-    out
 }
